@@ -34,6 +34,10 @@ def history(rng, fam, churn):
                 k = rng.randint(5000, 5010); h.append("%s %d %d" % (rng.choice(["find", "findr", "rm"]), k, code(k)))
             continue
         k = rng.randint(1, keyspace)
+        if rng.random() < 0.04:
+            # erase at an arbitrary iterator value: the end iterator (what find returns for an absent key), any slot, beyond the table
+            h.append("eraseat " + rng.choice(["end", str(rng.randint(0, 7)), str(rng.randint(0, 70)), str(rng.randint(0, 600))]))
+            continue
         if r < 0.40:
             h.append("%s %d %d %d" % (rng.choice(["ins", "ins", "pins", "pinsp"]), nextrec, k, code(k)))
             if k not in live: live[k] = nextrec
@@ -50,7 +54,7 @@ def history(rng, fam, churn):
 
 def run(ck):
     ck.level = "proof"
-    ck.cov["rule"] = ("histories of insert / plan+insert_at / prehashed plan / find / find_record / remove / erase / iterate under five hash families "
+    ck.cov["rule"] = ("histories of insert / plan+insert_at / prehashed plan / find / find_record / remove / erase (also at the end iterator, at tombstones, empty slots and beyond the table) / iterate under five hash families "
                       "(constant, identity, low-bit-colliding, mixed, codes equal to 0 and to the tombstone marker), key at offset 0/8/24 in the record, "
                       "uniform and churn generators (live count held between shrink and grow thresholds while fresh keys cycle); per call: status, record, "
                       "size, the whole slot array, count, n_entries and the callback-argument log are compared; each call under a CPU watchdog")
